@@ -236,7 +236,7 @@ POLICIES = dict(reject=(paramiko.RejectPolicy, False), autoadd=(paramiko.AutoAdd
 STATES = ["same", "diff-same-type", "other-type-only", "hashed-same", "hashed-diff", "port-entry-same",
           "port-entry-diff", "plain-entry-other-port", "none", "multi-host-line-same", "same-plus-other-type",
           "multi-host-line-diff", "mixed-line-hashed-first-diff", "mixed-line-hashed-first-same",
-          "hashed-other-line-then-plain-diff"]
+          "hashed-other-line-then-plain-diff", "bare-same-other-port", "bare-same-plus-port-diff"]
 KEYTYPES = ["rsa", "ecdsa", "ed25519"]
 METHODS = ["password", "pkey", "strategy-password", "strategy-pkey"]
 
@@ -251,9 +251,11 @@ def client_case(ctx, idx, combo=None):
     states = STATES
     state, pol, ktype, method = combo or (rng.choice(states), rng.choice(sorted(POLICIES)), rng.choice(KEYTYPES),
                                           rng.choice(METHODS))
-    port = 2222 if state.startswith("port-entry") or state == "plain-entry-other-port" else 22
+    port = 2222 if state.startswith("port-entry") or state == "plain-entry-other-port" or state.startswith("bare-") else 22
+    # which store the entries are loaded into: the user file or the system-wide one
+    store = "system" if idx % 3 == 2 else "user"
     host = "vfhost.example"
-    desc = dict(kind="sshclient", known=state, policy=pol, keytype=ktype, method=method, port=port)
+    desc = dict(kind="sshclient", known=state, policy=pol, keytype=ktype, method=method, port=port, store=store)
     server_key = _key(ktype, 0)
     other_same_type = _key(ktype, 1)
     other_type = _key([k for k in KEYTYPES if k != ktype][idx % 2], 0)
@@ -311,13 +313,24 @@ def client_case(ctx, idx, combo=None):
     elif state == "hashed-other-line-then-plain-diff":
         text += line(paramiko.HostKeys.hash_host("elsewhere.example"), server_key) + line(name, other_same_type)
         known_applies = False
+    elif state == "bare-same-other-port":
+        # the port-22 name lists the very key the server on port 2222 presents: still an unknown host
+        text += line(host, server_key)
+        known_applies = None
+    elif state == "bare-same-plus-port-diff":
+        text += line(host, server_key) + line(name, other_same_type)
+        known_applies = False
     elif state == "same-plus-other-type":
         text += line(name, other_type) + line(name, server_key)
         known_applies = True
     fd, khpath = tempfile.mkstemp(prefix="vf-kh-")
     with os.fdopen(fd, "w") as f:
         f.write(text)
-    cl.load_host_keys(khpath)
+    if store == "system":
+        cl.load_system_host_keys(khpath)
+        ctx.count("cases_with_system_host_keys")
+    else:
+        cl.load_host_keys(khpath)
     pcls, accepts = POLICIES[pol]
     cl.set_missing_host_key_policy(LoggingPolicy(rec, pcls()))
     allowed = known_applies if known_applies is not None else accepts
@@ -369,7 +382,7 @@ def client_case(ctx, idx, combo=None):
                 ctx.count("accepted_servers_authenticated")
         else:
             ctx.count("refused_servers_observed")
-        ctx.case(("B", state, pol, ktype, method), sample=dict(desc, error=repr(err), auth_msgs=[e["type"] for e in ar]) if idx < 3 else None)
+        ctx.case(("B", state, pol, ktype, method, store), sample=dict(desc, error=repr(err), auth_msgs=[e["type"] for e in ar]) if idx < 3 else None)
     finally:
         cl.close()
         ts.close()
@@ -430,4 +443,5 @@ def run(ctx):
     ctx.require("refused_servers_observed", 10)
     ctx.require("accepted_servers_authenticated", 10)
     ctx.require("policy_decisions_observed", 5)
+    ctx.require("cases_with_system_host_keys", 10)
     ctx.require("post_kex_auth_ok", 3)
